@@ -104,7 +104,9 @@ def query(db, q):
             o = Scalar(q[1])
             r = (repr(o), o.IsValid())
         elif k == "ScalarUnitOnly":
-            r = repr(Scalar(1.0, q[1]))
+            o = Scalar(5.0, q[1])
+            i = o.GetQuantity().GetCategoryInfo()
+            r = (repr(o), o.IsValid(), i.min_value, i.max_value, i.default_unit, list(o.GetValidUnits()))
         elif k == "ScalarGetValidUnits":
             r = list(Scalar(1.0, q[2], q[1]).GetValidUnits())
         elif k == "ArrayGetValidUnits":
@@ -306,6 +308,8 @@ def seq_strategy(base_kind, max_len):
             kinds2 = ["CheckCategoryUnit", "ObtainQuantity", "Scalar", "ScalarGetValidUnits", "ArrayGetValidUnits"]
             ask = [["query", [draw(st.sampled_from(kinds2)), c0, u0]] for _ in range(draw(st.integers(1, 2)))]
             ask += [["query", [draw(st.sampled_from(["Convert", "GetValue", "CreateCopy"])), c0, "m", u0]]] * draw(st.integers(0, 1))
+            # the forms that leave the category out resolve it through the unit (separate cache keys)
+            ask += [["query", [draw(st.sampled_from(["ScalarUnitOnly", "ObtainQuantityUnitOnly"])), draw(st.sampled_from(["m", u0]))]]]
             change = draw(
                 st.sampled_from(
                     [
